@@ -123,6 +123,28 @@ func (p *Pump) WaitLen(n int, d time.Duration) bool {
 	}
 }
 
+// WaitProgress waits until at least n bytes arrived or the reader ended; unlike WaitLen it keeps waiting as long as bytes keep
+// coming (the disk reader needs >= 10 ms to step over each segment boundary) and gives up only after `idle` without a single
+// new byte, or after `total`.
+func (p *Pump) WaitProgress(n int, idle, total time.Duration) bool {
+	begin, last, lastMove := time.Now(), -1, time.Now()
+	for {
+		p.mu.Lock()
+		l, done := len(p.buf), p.done
+		p.mu.Unlock()
+		if l >= n {
+			return true
+		}
+		if l != last {
+			last, lastMove = l, time.Now()
+		}
+		if done || time.Since(lastMove) > idle || time.Since(begin) > total {
+			return false
+		}
+		time.Sleep(200 * time.Microsecond)
+	}
+}
+
 // Verify checks every byte received so far against the byte function. Returns "" or a description.
 func (p *Pump) Verify() string {
 	buf, _, _ := p.Snapshot()
